@@ -84,10 +84,16 @@ class Api:
 
 
 class Tracker:
+    def __init__(self, **kwargs):
+        pass
+
     def get_working_components(self, ids):
         return set(ids)
 
     async def update_status(self, succeeded, failed):
+        return None
+
+    async def stop(self):
         return None
 
 
@@ -135,6 +141,84 @@ def make_manager(case, I):
     return m, api, log
 
 
+# ----------------------------------------------------------------------------- construction through the real start-up code
+class LoggedCache:
+    """wraps a real LatestValueCache AFTER the real wiring was done: only logs the reads"""
+    def __init__(self, cid, real, log):
+        self.cid, self.real, self.log = cid, real, log
+
+    def has_value(self):
+        return self.real.has_value()
+
+    def get(self):
+        self.log.append(self.cid)
+        return self.real.get()
+
+    async def stop(self):
+        await self.real.stop()
+
+
+class StreamApi(Api):
+    """fake microgrid API client whose data streams are real frequenz.channels Broadcast channels"""
+    def __init__(self):
+        super().__init__()
+        self.chans, self.senders = {}, {}
+
+    def _recv(self, kind, cid):
+        from frequenz.channels import Broadcast
+        key = (kind, cid)
+        if key not in self.chans:
+            self.chans[key] = Broadcast(name=f"{kind}_{cid}")
+            self.senders[key] = self.chans[key].new_sender()
+        return self.chans[key].new_receiver(limit=50)
+
+    async def battery_data(self, component_id):
+        return self._recv("bat", component_id)
+
+    async def inverter_data(self, component_id):
+        await asyncio.sleep(0)      # a real API call yields to the loop
+        return self._recv("inv", component_id)
+
+
+class Graph:
+    """the three component-graph queries BatteryManager.__init__ / _get_battery_inverter_mappings use"""
+    def __init__(self, case, I):
+        from frequenz.client.microgrid import ComponentCategory
+        self.cat = ComponentCategory
+        self.groups = case["groups"]
+
+    def _c(self, cid, cat):
+        from collections import namedtuple
+        return namedtuple("Comp", "component_id category")(cid, cat)
+
+    def components(self, component_ids=None, component_categories=None):
+        return {self._c(b, self.cat.BATTERY) for g in self.groups for b in g["bats"]}
+
+    def predecessors(self, cid):
+        return {self._c(i, self.cat.INVERTER) for g in self.groups if cid in g["bats"] for i in g["invs"]}
+
+    def successors(self, cid):
+        return {self._c(b, self.cat.BATTERY) for g in self.groups if cid in g["invs"] for b in g["bats"]}
+
+
+async def make_manager_startup(case, I):
+    """real BatteryManager.__init__ (maps from the component graph; only the health tracker class is replaced, its
+    subject is C16) -> real start() / _create_channels -> real LatestValueCache objects on real channels"""
+    api, log = StreamApi(), []
+    I.cm._CONNECTION_MANAGER = NS(api_client=api, component_graph=Graph(case, I))
+    real_tracker = I.bm.ComponentPoolStatusTracker
+    I.bm.ComponentPoolStatusTracker = Tracker
+    try:
+        m = I.bm.BatteryManager(component_pool_status_sender=Sender(), results_sender=Sender(),
+                                api_power_request_timeout=timedelta(seconds=5.0))
+    finally:
+        I.bm.ComponentPoolStatusTracker = real_tracker
+    await m.start()
+    m._battery_caches = {c: LoggedCache(c, r, log) for c, r in m._battery_caches.items()}
+    m._inverter_caches = {c: LoggedCache(c, r, log) for c, r in m._inverter_caches.items()}
+    return m, api, log
+
+
 def run_sequence(case):
     """drive one manager through the whole sequence; one observation per request"""
     import async_solipsism
@@ -144,10 +228,26 @@ def run_sequence(case):
     out = []
     try:
         asyncio.set_event_loop(loop)
-        m, api, log = make_manager(case, I)
+        startup = bool(case.get("startup"))
+        if startup:
+            m, api, log = loop.run_until_complete(make_manager_startup(case, I))
+        else:
+            m, api, log = make_manager(case, I)
         pool = set(m._bat_invs_map)
+
+        async def deliver(st):
+            # every sample is sent on the stream of the component it belongs to
+            for cid, d in st["bats"]:
+                await api.senders[("bat", cid)].send(bat_obj(cid, d, st["ts"]))
+            for cid, d in st["invs"]:
+                await api.senders[("inv", cid)].send(inv_obj(cid, d, st["ts"]))
+            for _ in range(4):
+                await asyncio.sleep(0)
         for st in case["steps"]:
             if st["t"] == "data":
+                if startup:
+                    loop.run_until_complete(deliver(st))
+                    continue
                 for cid, d in st["bats"]:
                     m._battery_caches[cid].value = bat_obj(cid, d, st["ts"] if "ts" not in d else d["ts"])
                 for cid, d in st["invs"]:
@@ -188,6 +288,8 @@ def run_sequence(case):
             else:
                 o["kind"] = f"results:{len(msgs)}"
             out.append(o)
+        if startup:
+            loop.run_until_complete(m.stop())
     finally:
         asyncio.set_event_loop(None)
         loop.close()
@@ -373,12 +475,17 @@ def _requests(rng, dc):
     return cands
 
 
-def gen_case(rng):
-    n = rng.choice([1, 2, 2, 3])
+def gen_case(rng, startup=False):
+    n = rng.choice([1, 2, 2, 3]) if not startup else rng.choice([2, 2, 3])
     topo, cid = [], rng.choice([1, 10])
+    pool_ids = rng.sample(range(1, 64), 24)     # start-up path: ids whose set-iteration order differs from sorted order
     for _ in range(n):
         k, m = rng.choice([1, 1, 2]), rng.choice([1, 1, 2, 3])
-        topo.append({"bats": list(range(cid, cid + k)), "invs": list(range(cid + k, cid + k + m))})
+        if startup:
+            ids = [pool_ids.pop() for _ in range(k + m)]
+            topo.append({"bats": ids[:k], "invs": ids[k:]})
+        else:
+            topo.append({"bats": list(range(cid, cid + k)), "invs": list(range(cid + k, cid + k + m))})
         cid += k + m
     steps, ts = [], 0
     bats, invs = _comp_data(rng, topo)
@@ -425,7 +532,11 @@ def gen_case(rng):
         steps.append({"t": "data", "ts": ts, "bats": ub, "invs": ui})
         cur_b.update(dict(map(tuple, ub)))
         cur_i.update(dict(map(tuple, ui)))
-    return {"groups": topo, "steps": steps}
+    case = {"groups": topo, "steps": steps}
+    if startup:
+        # every component needs a stream sample before it is used; requests before the data are fine (Error)
+        case["startup"] = True
+    return case
 
 
 def boundary_cases():
@@ -446,6 +557,16 @@ def boundary_cases():
                                           {"t": "req", "power": -800, "adjust": True},
                                           {"t": "data", "ts": 2, "bats": [[1, {**b, "soc": 100}]], "invs": []},
                                           {"t": "req", "power": 150, "adjust": True}]})
+    # through the real start-up wiring: inverter ids 17 / 24 (set-iteration order 24, 17), battery 18 full
+    full = {**b, "soc": 100}
+    wide = {"il": -800, "el": 0, "eu": 0, "iu": 800}
+    for ids in (([7], [17], [18], [24]), ([9], [25], [17], [16]), ([33], [41, 9], [2], [17])):
+        tp = [{"bats": ids[0], "invs": ids[1]}, {"bats": ids[2], "invs": ids[3]}]
+        out.append({"startup": True, "groups": tp, "steps": [
+            {"t": "data", "ts": 0, "bats": [[ids[0][0], b], [ids[2][0], full]],
+             "invs": [[x, i] for x in ids[1]] + [[x, wide] for x in ids[3]]},
+            {"t": "req", "power": 800, "adjust": True}, {"t": "req", "power": -800, "adjust": True},
+            {"t": "req", "power": 300, "adjust": False}]})
     # API faults: a pure out-of-range rejection, one inverter of a two-inverter set failing, a timeout
     topo2 = [{"bats": [7], "invs": [8]}, {"bats": [17], "invs": [18, 19]}]
     d2 = {"t": "data", "ts": 0, "bats": [[7, b], [17, b]], "invs": [[8, i], [18, i], [19, i]]}
@@ -490,8 +611,8 @@ class ManagerStream(Stream):
 
     def gen(self, rng, tier):
         yield from boundary_cases()
-        for _ in range(self.n_quick if tier == "quick" else self.n_thorough):
-            yield gen_case(rng)
+        for k in range(self.n_quick if tier == "quick" else self.n_thorough):
+            yield gen_case(rng, startup=(k % 3 == 2))
 
     def run_impl(self, case):
         return run_sequence(case)
@@ -531,6 +652,13 @@ class ManagerStream(Stream):
 
     def labels(self, case, obs):
         out = [f"sets={len(case['groups'])}", f"requests={len(obs['reqs'])}"]
+        if case.get("startup"):
+            out.append("construction:real_init_and_create_channels")
+            invs = [i for g in case["groups"] for i in g["invs"]]
+            if list(set(invs)) != sorted(invs):
+                out.append("construction:set_order_differs_from_sorted_order")
+        else:
+            out.append("construction:injected_maps")
         prev_b, prev_i = {}, {}
         for st in case["steps"]:
             if st["t"] != "data":
